@@ -413,6 +413,32 @@ fn to_git_or_remote_tag_ref_name(symbol: RemoteRefSymbol<'_>) -> GitRefNameBuf {
     }
 }
 
+/// Verification hooks: expose the private ref-name mapping functions unchanged.
+#[cfg(jj_vcs_jj_verif)]
+pub fn verif_to_git_ref_name(
+    kind: GitRefKind,
+    symbol: RemoteRefSymbol<'_>,
+) -> Option<GitRefNameBuf> {
+    to_git_ref_name(kind, symbol)
+}
+
+#[cfg(jj_vcs_jj_verif)]
+pub fn verif_validate_remote_name(name: &RemoteName) -> Result<(), GitRemoteNameError> {
+    validate_remote_name(name)
+}
+
+#[cfg(jj_vcs_jj_verif)]
+pub fn verif_parse_remote_tag_ref(
+    full_name: &GitRefName,
+) -> Option<(GitRefKind, RemoteRefSymbol<'_>)> {
+    parse_remote_tag_ref(full_name)
+}
+
+#[cfg(jj_vcs_jj_verif)]
+pub fn verif_to_git_or_remote_tag_ref_name(symbol: RemoteRefSymbol<'_>) -> GitRefNameBuf {
+    to_git_or_remote_tag_ref_name(symbol)
+}
+
 #[derive(Debug, Error)]
 #[error("The repo is not backed by a Git repo")]
 pub struct UnexpectedGitBackendError;
